@@ -551,7 +551,7 @@ def _sbmv(types, sc):
                dims={'n': 'dim', 'k': 'band'}, sig_extra=['n', 'k'])
 
 
-def _tv(band, ndoc='integer', require=()):
+def _spec_tv(band, ndoc='integer', require=()):
     ints = [('n', 'int', 'A.c' if band else 'A.r', ndoc)]
     if band:
         ints.append(('k', 'int', 'max(0,A.r-1)', 'nonnegative integer'))
@@ -681,10 +681,10 @@ SPEC = {
     'hemv': _symv('dz', 'num'),
     'sbmv': _sbmv('d', 'real'),
     'hbmv': _sbmv('dz', 'num'),
-    'trmv': _tv(False, require=[('n', _SQ, 'doc')]),
-    'trsv': _tv(False, require=[('n', _SQ, 'doc')]),
-    'tbmv': _tv(True, ndoc='nonnegative integer'),
-    'tbsv': _tv(True, ndoc='nonnegative integer'),
+    'trmv': _spec_tv(False, require=[('n', _SQ, 'doc')]),
+    'trsv': _spec_tv(False, require=[('n', _SQ, 'doc')]),
+    'tbmv': _spec_tv(True, ndoc='nonnegative integer'),
+    'tbsv': _spec_tv(True, ndoc='nonnegative integer'),
     'ger': _ger(),
     'geru': _ger(),
     'syr': _syr('d', 'real', False),
@@ -1390,7 +1390,7 @@ def predict(f, tcs, shapes, kw):
     why, skip = [], []
     tset = set(tcs.values())
     tc = None
-    if len(tset) == 1 and list(tset)[0] in sp['types']:
+    if len(tset) == 1 and isinstance(list(tset)[0], str) and list(tset)[0] in sp['types']:
         tc = list(tset)[0]
     else:
         why.append('type')
